@@ -535,3 +535,42 @@ package ech
 //@   check[F:expiry] err == nil && reqcount(0) != old(reqcount(0)) && cache != nil ==> tnano(v.expiration) == gclock(0) + int(ttl0)*1000000000 && v.result == res0 && res == res0
 //@   check[F:errors-not-cached] err != nil && cache != nil && !fresh(v) ==> v.expiration == old(v.expiration) && v.result == old(v.result)
 //@   ensures[F:one-upstream-call] reqcount(0) <= old(reqcount(0)) + 1
+
+// ResolveResult.Targets: the iterator body is verified together with the function (iterbody); every call of yield
+// and of the local closure add is a call-site obligation.
+//@ ghost ycount(k any) int
+//@ ghost ystopped(k any) bool
+//@ func ResolveResult.Targets
+//@   iterbody
+//@   noshare
+//@   terminates
+//@   requires ycount(0) == 0 && !ystopped(0)
+//@   modifies ycount(0), ystopped(0)
+//@   param yield(t) returns (more)
+//@     requires[valid] t.Address.ip.z.value != nil && !ystopped(0)
+//@     requires[family] (network == "tcp4" || network == "udp4" ==> apIs4(t.Address)) && (network == "tcp6" || network == "udp6" ==> !apIs4(t.Address))
+//@     requires[no-duplicate] seen[t.Address] && len(seen) == ycount(0) + 1
+//@     modifies ycount(0), ystopped(0)
+//@     ensures ycount(0) == old(ycount(0)) + 1 && (ystopped(0) == !more)
+//@   callsite "add(a, port, h.ECH, alpn)" requires[F:service-mode] int(h.Priority) != 0 && !ystopped(0) && len(seen) == ycount(0) && forall(k, has(seen, k) ==> seen[k])
+//@   callsite "add(a, port, h.ECH, alpn)" requires[F:port] int(arg1) == ite(int(h.Port) > 0, int(h.Port), ite(int(r.Port) == 80, 443, int(r.Port)))
+//@   callsite "add(a, port, h.ECH, alpn)" requires[F:ech-alpn] arg2 == h.ECH && len(arg3) == len(h.ALPN) + ite(h.NoDefaultALPN, 0, 1) &&
+//@       forall(k, 0, len(h.ALPN), arg3[k] == h.ALPN[k]) && (!h.NoDefaultALPN ==> arg3[len(h.ALPN)] == "http/1.1")
+//@   callsite "add(a, port, h.ECH, alpn)" requires[F:address-source] (h.Target != "" ==> exists(j, 0, len(r.Additional[h.Target]), r.Additional[h.Target][j] == arg0)) &&
+//@       (h.Target == "" && len(r.Address) > 0 ==> exists(j, 0, len(r.Address), r.Address[j] == arg0)) &&
+//@       (h.Target == "" && len(r.Address) == 0 ==> exists(j, 0, len(h.IPv4Hint), h.IPv4Hint[j] == arg0) || exists(j, 0, len(h.IPv6Hint), h.IPv6Hint[j] == arg0))
+//@   callsite "yield(Target" requires[F:fields] arg0.ECH == ech0 && arg0.ALPN == alpn0 && apPort(arg0.Address) == ite(int(port0) == 0, int(r.Port), int(port0)) && apAddr(arg0.Address) == ipId(cid(ip0))
+//@   callsite "add(a, r.Port, nil, nil)" requires[F:fallback-source] int(arg1) == int(r.Port) && exists(j, 0, len(r.Address), r.Address[j] == arg0)
+//@   callsite "add(a, r.Port, nil, nil)" requires[F:fallback-only-if-none] ycount(0) <= ri6 && !ystopped(0) && isnil(arg2) && isnil(arg3)
+//@   loop 1 "range r.HTTPS"
+//@     invariant len(seen) == ycount(0) && !ystopped(0) && seen != nil && forall(k, has(seen, k) ==> seen[k])
+//@   loop 2 "range r.Additional[h.Target]"
+//@     invariant len(seen) == ycount(0) && !ystopped(0) && seen != nil && forall(k, has(seen, k) ==> seen[k])
+//@   loop 3 "range r.Address"
+//@     invariant len(seen) == ycount(0) && !ystopped(0) && seen != nil && forall(k, has(seen, k) ==> seen[k])
+//@   loop 4 "range h.IPv4Hint"
+//@     invariant len(seen) == ycount(0) && !ystopped(0) && seen != nil && forall(k, has(seen, k) ==> seen[k])
+//@   loop 5 "range h.IPv6Hint"
+//@     invariant len(seen) == ycount(0) && !ystopped(0) && seen != nil && forall(k, has(seen, k) ==> seen[k])
+//@   loop 6 "range r.Address"
+//@     invariant len(seen) == ycount(0) && !ystopped(0) && seen != nil && forall(k, has(seen, k) ==> seen[k]) && ycount(0) <= ri6
